@@ -6,7 +6,9 @@ MC   : TLC explores ALL interleavings of G goroutines x M renders over the share
        steps, and a generic scratch kind -- bytes.Buffer of ToGoHTML/handler, a pooled class-name processor, ... --
        with Get / Add / Read-into-the-document / Clear+Put), the development-mode
        literal cache (mutex, cached?, stat, reload, file rewritten meanwhile) and the once-handle id counter;
-       invariants ExclusiveBuffer, Isolated, MutexProtectsCache, LiteralsAreAVersion, UniqueIds.  Negative
+       and over the kinds of destination a goroutine renders into (plain writer, its own long-lived bufio.Writer at least
+       as big as / smaller than the pool buffers, its own runtime.Buffer; the caller flushes after Render);
+       invariants ExclusiveBuffer, Isolated, OwnDestinationOnly, MutexProtectsCache, LiteralsAreAVersion, UniqueIds.  Negative
        configs (Put before the flush, missing Reset, scratch object released twice, cache read outside the mutex,
        non-atomic id) must be rejected.
 VAL  : the Go scheduler cannot be replayed step by step, so the binding is trace validation + stress: a harness
@@ -14,7 +16,8 @@ VAL  : the Go scheduler cannot be replayed step by step, so the binding is trace
        once handles, nested components, flushes, failing expressions/components, slow and failing writers,
        templ.ToGoHTML and the buffered templ.Handler for the bytes.Buffer pool, and a Gallery template whose variants
        go through class expressions in every container form, css components, script templates / on* attributes,
-       style, URL and spread attributes, JSONScript, Raw) from N goroutines x M renders;
+       style, URL and spread attributes, JSONScript, Raw) from N goroutines x M renders, every goroutine with a
+       destination of one of the four kinds; before that, on one goroutine, A, B, A, B into two destinations of each kind;
        a second process runs with TEMPL_DEV_MODE=true against literal text files (TEMPL_DEV_MODE_ROOT in scratch)
        that a goroutine keeps rewriting (all goroutines leave the same 130 ms of every 500 ms idle, so the cache
        reloads whatever its look-again policy is -- WHEN it reloads is C16's property, not this one's; a tree
@@ -34,7 +37,8 @@ NEG = {  # seeded defect -> (DevMode, invariants that may reject it)
     "noreset": ("FALSE", {"Isolated"}),
     "cacheunlocked": ("TRUE", {"MutexProtectsCache"}),
     "idrace": ("FALSE", {"UniqueIds"}),
-    "doubleput": ("FALSE", {"ExclusiveBuffer", "Isolated"}),      # a pooled scratch object released twice for one Get
+    "doubleput": ("FALSE", {"ExclusiveBuffer", "Isolated"}),
+    "adoptbufio": ("FALSE", {"OwnDestinationOnly", "Isolated"}),  # checked on RenderPool_dest.cfg (all destination kinds)      # a pooled scratch object released twice for one Get
 }
 
 
@@ -182,11 +186,19 @@ def main():
                                DocLen="= %d" % (3 if thorough else 2)), workers=8),
         "g3-scratch": dict(cfgtext=cfg("RenderPool_mc.cfg", G="<- G3", NBuf="= 3", FailAt="<- Fail12", DocLen="= 1"), workers=8),
         "dev-g2": dict(cfgtext=cfg("RenderPool_dev.cfg"), workers=4),
+        # destination kinds: plain writer / the goroutine's own bufio.Writer (>= and < the pool buffer's size) / its own Buffer
+        "dest-g2": dict(cfgtext=cfg("RenderPool_dest.cfg"), workers=4),
     }
     if thorough:
         jobs["dev-g3"] = dict(cfgtext=cfg("RenderPool_dev.cfg", G="<- G3", NBuf="= 3"), workers=12)
         jobs["g2-m3"] = dict(cfgtext=cfg("RenderPool_mc.cfg", M="= 3", DocLen="= 3"), workers=4)
+    if thorough:
+        jobs["dest-g3"] = dict(cfgtext=cfg("RenderPool_dest.cfg", G="<- G3", NBuf="= 3", DocLen="= 1"), workers=8)
+    # a new pool buffer adopts the caller's *bufio.Writer (bufio.NewWriterSize(w, size) returns w itself)
+    jobs["neg-adoptbufio"] = dict(cfgtext=cfg("RenderPool_dest.cfg", Bug='= "adoptbufio"'), workers=1)
     for bug, (dev, _) in NEG.items():
+        if bug == "adoptbufio":
+            continue
         jobs["neg-" + bug] = dict(cfgtext=cfg("RenderPool_neg.cfg", Bug='= "%s"' % bug, DevMode="= " + dev), workers=1)
     results = {}
     with cf.ThreadPoolExecutor(max_workers=10) as ex:
